@@ -43,7 +43,8 @@ CFG = dict(
                  "2": "the observed history violates the property predicate (Check/C19c.v: round trip, spec_chan, spec_ws, "
                       "spec_http, CHttpRaw = the 400-iff classification, CHttpE2E = written without error and read equal, CAssert 1 = a parked "
                       "Write ends with its context, CAssert 2 = the channel transport hands over a 1 MiB envelope unchanged, "
-                      "CAssert 3 = Write reports an envelope that the far end refused with 503 / 400: finding http-write-ignores-status)",
+                      "CAssert 3 = Write returns an error for an envelope that the far end refused with 503 / 400 (regression of http-write-ignores-status, "
+                      "fixed in /repo 2aacfa6: a nil from Write means 'answered 200', and 200 is answered only with the delivery))",
                  "3": "a Read/Write whose context is done was still blocked at quiescence (spec_chan_ctx)"},
     rule="wire: every present/absent combination of the 5 sub-messages x ids {0,1,127,128,...,2^63,2^64-1} x bodies {0,1,17,300,"
          "64KiB (thorough: 1MiB)} x empty/ASCII/non-ASCII/NUL/long strings x repeated fields 0..5, invalid UTF-8 in every string "
